@@ -2,6 +2,7 @@ package main
 
 import (
 	"fmt"
+	"go/token"
 	"regexp"
 	"sync"
 	"go/constant"
@@ -41,6 +42,7 @@ type funcInfo struct {
 	headers  map[*ssa.BasicBlock]int
 	loopBody map[*ssa.BasicBlock]map[*ssa.BasicBlock]bool
 	callOrd  map[ssa.Instruction]callLabel
+	chanOrd  map[ssa.Instruction]int // ordinal of channel operations (send / receive / select) in source order
 }
 
 var funcInfoCache = map[*ssa.Function]*funcInfo{}
@@ -51,7 +53,7 @@ func (e *Engine) info(fn *ssa.Function) *funcInfo {
 	if fi, ok := funcInfoCache[fn]; ok {
 		return fi
 	}
-	fi := &funcInfo{headers: map[*ssa.BasicBlock]int{}, loopBody: map[*ssa.BasicBlock]map[*ssa.BasicBlock]bool{}, callOrd: map[ssa.Instruction]callLabel{}}
+	fi := &funcInfo{headers: map[*ssa.BasicBlock]int{}, loopBody: map[*ssa.BasicBlock]map[*ssa.BasicBlock]bool{}, callOrd: map[ssa.Instruction]callLabel{}, chanOrd: map[ssa.Instruction]int{}}
 	// back edges: n -> h with h dominating n
 	var hs []*ssa.BasicBlock
 	for _, b := range fn.Blocks {
@@ -122,6 +124,43 @@ func (e *Engine) info(fn *ssa.Function) *funcInfo {
 		}
 		return sites[i].seq < sites[j].seq
 	})
+	{
+		type chsite struct {
+			in  ssa.Instruction
+			pos int
+			seq int
+		}
+		var chs []chsite
+		sq := 0
+		for _, b := range fn.Blocks {
+			for _, in := range b.Instrs {
+				isCh := false
+				switch x := in.(type) {
+				case *ssa.Send, *ssa.Select:
+					isCh = true
+				case *ssa.UnOp:
+					isCh = x.Op == token.ARROW
+				}
+				if isCh {
+					p := int(in.Pos())
+					if p == 0 {
+						p = 1 << 40
+					}
+					chs = append(chs, chsite{in, p, sq})
+					sq++
+				}
+			}
+		}
+		sort.SliceStable(chs, func(i, j int) bool {
+			if chs[i].pos != chs[j].pos {
+				return chs[i].pos < chs[j].pos
+			}
+			return chs[i].seq < chs[j].seq
+		})
+		for i, c := range chs {
+			fi.chanOrd[c.in] = i
+		}
+	}
 	counts := map[string]int{}
 	for _, cs := range sites {
 		n := calleeShortName(cs.cc)
